@@ -42,7 +42,7 @@ fn main() {
             let h = ops::History::parse(&text);
             let dir = fresh_dir(Path::new(&args[3]), "db");
             let dump = args.get(4).map_or(true, |s| s != "nodump");
-            let trace = drive::run_history(&h, &dir, dump);
+            let trace = run_guarded(&h, &dir, dump, &Path::new(&args[3]).join("trace.tmp"));
             print!("{trace}");
             let _ = std::fs::remove_dir_all(&dir);
         }
@@ -58,13 +58,20 @@ fn main() {
             for seed in seed0..seed0 + count {
                 let h = gen::generate(profile, seed, n_ops, blob);
                 let dir = fresh_dir(&scratch, &format!("db-{seed}"));
-                let trace = drive::run_history(&h, &dir, true);
+                let trace = run_guarded(&h, &dir, true, &scratch.join(format!("trace-{seed}.tmp")));
                 std::fs::write(outdir.join(format!("{seed}.hist")), h.text()).expect("write");
                 std::fs::write(outdir.join(format!("{seed}.trace")), trace).expect("write");
                 let _ = std::fs::remove_dir_all(&dir);
             }
         }
         Some("multi") => {
+            // a history that never terminates must fail this run, not stall the check
+            // SAFETY: plain setrlimit/alarm
+            unsafe {
+                let cpu = libc::rlimit { rlim_cur: 150, rlim_max: 160 };
+                libc::setrlimit(libc::RLIMIT_CPU, &cpu);
+                libc::alarm(900);
+            }
             // lsmv multi <history> <scratch> <outprefix> <k> <seed> <sep|shared>
             let text = std::fs::read_to_string(&args[2]).expect("history file");
             let h = ops::History::parse(&text);
@@ -158,6 +165,11 @@ fn main() {
             let count: u64 = args[3].parse().expect("count");
             let outdir = PathBuf::from(&args[4]);
             let scratch = PathBuf::from(&args[5]);
+            // a deadlock or livelock between the threads must fail the run, not stall the check
+            // SAFETY: plain alarm
+            unsafe {
+                libc::alarm(120 + 30 * u32::try_from(count).unwrap_or(100));
+            }
             let n_writes: usize = args[6].parse().expect("n_writes");
             let writer_published = args[7] == "pub" || args[7] == "pubj";
             let preempt_writer = args[7] == "pubj" || args[7] == "vis";
@@ -183,3 +195,46 @@ fn main() {
         }
     }
 }
+
+/// Runs one history in a forked child with a CPU and a wall-clock limit: an operation of the
+/// crate that never returns (e.g. an iterator that keeps retrying a failing block) must show up
+/// as a failure of that history, not stall the whole check.
+fn run_guarded(h: &ops::History, dir: &Path, dump: bool, tmp: &Path) -> String {
+    let _ = std::fs::remove_file(tmp);
+    if let Some(p) = tmp.parent() {
+        let _ = std::fs::create_dir_all(p);
+    }
+    // SAFETY: plain fork/waitpid; this process is single-threaded at this point
+    unsafe {
+        let pid = libc::fork();
+        if pid == 0 {
+            let cpu = libc::rlimit { rlim_cur: 40, rlim_max: 50 };
+            libc::setrlimit(libc::RLIMIT_CPU, &cpu);
+            libc::alarm(600);
+            let trace = drive::run_history(h, dir, dump);
+            let _ = std::fs::write(tmp, trace);
+            libc::_exit(0);
+        }
+        if pid > 0 {
+            let mut status: libc::c_int = 0;
+            libc::waitpid(pid, &mut status, 0);
+            if libc::WIFSIGNALED(status) {
+                let sig = libc::WTERMSIG(status);
+                let what = if sig == libc::SIGXCPU || sig == libc::SIGALRM || sig == libc::SIGKILL {
+                    format!("FATAL hang the history did not terminate within 40 s CPU / 600 s wall (signal {sig})")
+                } else {
+                    format!("FATAL abort the process running the history was killed by signal {sig}")
+                };
+                return format!("C {}\n{what}\nEND\n", h.cfg.text());
+            }
+            if let Ok(t) = std::fs::read_to_string(tmp) {
+                let _ = std::fs::remove_file(tmp);
+                return t;
+            }
+            return format!("C {}\nFATAL abort the child produced no trace\nEND\n", h.cfg.text());
+        }
+    }
+    // fork failed: run in-process
+    drive::run_history(h, dir, dump)
+}
+
